@@ -152,7 +152,8 @@ impl TrackAttributes<Attrs, Val> for Attrs {
         if self.plan.attr_merge_fails.swap(false, Ordering::SeqCst) {
             // half-done change that the library must roll back
             self.cnt += 1000;
-            return Err(anyhow!("attribute merge fails"));
+            // the error the library itself defines for tracks that do not go together: a failure like any other
+            return Err(similari::Errors::IncompatibleAttributes.into());
         }
         self.cnt += other.cnt;
         Ok(())
